@@ -84,7 +84,7 @@ Chain(u, p, q, k, needOrder, fuel) ==
        IF ~Trivial(c, p) /\ (needOrder => PowM(c, q, p) = 1)
        THEN [st |-> "ok", u |-> u2, g |-> c, m |-> p]
        ELSE Chain(u2, p, q, k, needOrder, fuel - 1)
-Canon(p, q) == Chain(GenPrefix(p, q), p, q, (p - 1) \div q, TRUE, 12)
+Canon(p, q) == Chain(GenPrefix(p, q), p, q, (p - 1) \div q, TRUE, 40)
 IsCanon(p, q, g) == LET c == Canon(p, q) IN c.st = "ok" /\ c.g = g
 
 \* public-coin set-up of the commitment generators: h, g_1, .., g_n from the seed a (one growing string)
@@ -92,7 +92,7 @@ HGPrefix(p, q, a) == "LibTMCG|" \o B62(p) \o "|" \o B62(q) \o "|hggen|" \o B62(a
 RECURSIVE HGChain(_, _, _, _, _, _)
 HGChain(u, p, q, k, cnt, acc) ==
   IF cnt = 0 THEN [st |-> "ok", gs |-> acc, u |-> u, m |-> p]
-  ELSE LET c == Chain(u, p, q, k, FALSE, 12) IN
+  ELSE LET c == Chain(u, p, q, k, FALSE, 40) IN
        IF c.st # "ok" THEN [st |-> c.st, gs |-> acc, u |-> c.u, m |-> p]
        ELSE HGChain(c.u, p, q, k, cnt - 1, Append(acc, c.g))
 \* <<h, g_1, .., g_n>>
